@@ -3,63 +3,109 @@ import RustCcModel.Proofs.FlagsStep
 /-! `Counts` holds in every reachable world. -/
 namespace RustCc
 open World
+variable {ex : Bool}
 
-/-- **Every frame step preserves `Counts`.** -/
-theorem stepFrame_counts (c : Cfg) (w : World) (f : Frame) (rest : List Frame) (h : Counts w) (hs : w.stack = f :: rest) :
-    Counts (stepFrame c { w with stack := rest } f) := by
+/-- Table index used by an allocation frame. -/
+def Frame.kOk (n : Nat) : Frame → Prop
+  | .newAlloc k _ => k < n
+  | .newCyclicAlloc k _ _ _ => k < n
+  | .newCyclicEnd k _ _ _ => k < n
+  | _ => True
+
+/-- What *exactness* of the counts needs beyond `Counts` itself (nothing of this is needed for `≤`): table indices held by
+allocation frames are in range (else the new pointer would be lost), and the free list of every slot map names distinct,
+existing, empty slots (else `register` would overwrite a registered action and lose its captured pointer). -/
+structure AuxX (w : World) : Prop where
+  kok : ∀ f ∈ w.stack, f.kOk w.H.length
+  free : ∀ m, (w.heap m).afree.Nodup ∧ ∀ i ∈ (w.heap m).afree, i < (w.heap m).aslots.length ∧ (w.heap m).aslots.getD i none = none
+
+theorem AuxX.head {w : World} (h : AuxX w) (m : Id) (i : Nat) (fr : List Nat) (hfr : (w.heap m).afree = i :: fr) :
+    i < (w.heap m).aslots.length ∧ (w.heap m).aslots.getD i none = none :=
+  (h.free m).2 i (by rw [hfr]; exact List.mem_cons_self ..)
+
+theorem CountsG.ofFalse {w : World} {b : Bool} (h : CountsG false w) (hb : b = false) : CountsG b w := hb ▸ h
+
+/-- **Every frame step preserves `Counts`** — and, given `AuxX`, its exact form, unless the step ends in the model's
+`stuck` state (a debug assertion of the crate failed). -/
+theorem stepFrame_counts (c : Cfg) (w : World) (f : Frame) (rest : List Frame) (h : CountsG ex w) (hs : w.stack = f :: rest)
+    (ha : ex = true → AuxX w) :
+    CountsG (ex && decide ((stepFrame c { w with stack := rest } f).mode ≠ .stuck)) (stepFrame c { w with stack := rest } f) := by
+  have hk : ∀ g ∈ w.stack, ex = true → g.kOk w.H.length := fun g hg hex => (ha hex).kok g hg
   cases f with
-  | script ops self wc top => exact stepFrame_counts_script c w ops self wc top rest h hs
+  | script ops self wc top => exact (stepFrame_counts_script c w ops self wc top rest h hs).weakenAnd _
   | catchTop =>
     simp only [stepFrame]
-    exact ((h.pop hs).1.forget (E' := []) (fun _ => Nat.zero_le _)).toCounts
+    exact ((h.pop hs).1.of_count (E' := []) (fun _ => by simp [Frame.holds])).toCounts0.weakenAnd _
   | setRet r =>
     simp only [stepFrame]
-    counts_congr ((h.pop hs).1.forget (E' := []) (fun _ => Nat.zero_le _))
+    refine CountsG.weakenAnd ?_ _
+    counts_congr ((h.pop hs).1.of_count (E' := []) (fun _ => by simp [Frame.holds]))
   | adjustAfter =>
     simp only [stepFrame]
-    counts_congr ((h.pop hs).1.forget (E' := []) (fun _ => Nat.zero_le _))
-  | dropCc x => exact stepFrame_counts_dropCc c w x rest h hs
-  | dropCcAfterFin x oldFin => exact stepFrame_counts_dropCcAfterFin c w x oldFin rest h hs
-  | afterDropValue x oldDrop => exact stepFrame_counts_afterDropValue c w x oldDrop rest h hs
-  | dropValue x => exact stepFrame_counts_dropValue c w x rest h hs
-  | dropMoved x => exact stepFrame_counts_dropMoved c w x rest h hs
-  | dropFields x unw => exact stepFrame_counts_dropFields c w x unw rest h hs
-  | dropActions m i unw => exact stepFrame_counts_dropActions c w m i unw rest h hs
-  | actionEnd cap unw => exact stepFrame_counts_actionEnd c w cap unw rest h hs
-  | callFin x => exact stepFrame_counts_callFin c w x rest h hs
-  | collectLoop n oldFin oldDrop => exact stepFrame_counts_collectLoop c w n oldFin oldDrop rest h hs
-  | collectPass => exact stepFrame_counts_collectPass c w rest h hs
-  | finalizePass N r hasFin oldFin => exact stepFrame_counts_finalizePass c w N r hasFin oldFin rest h hs
-  | deallocDrop N r oldDrop => exact stepFrame_counts_deallocDrop c w N r oldDrop rest h hs
-  | newAlloc k sp => exact stepFrame_counts_newAlloc c w k sp rest h hs
-  | newCyclicAlloc k sp body selfw => exact stepFrame_counts_newCyclicAlloc c w k sp body selfw rest h hs
-  | newCyclicEnd k id sp selfw => exact stepFrame_counts_newCyclicEnd c w k id sp selfw rest h hs
-  | regInsert owner script k cap => exact stepFrame_counts_regInsert c w owner script k cap rest h hs
-  | mapAlloc owner => exact stepFrame_counts_mapAlloc c w owner rest h hs
-  | cleanEnd m byUs unw => exact stepFrame_counts_cleanEnd c w m byUs unw rest h hs
-  | dropMany x n => exact stepFrame_counts_dropMany c w x n rest h hs
+    refine CountsG.weakenAnd ?_ _
+    counts_congr ((h.pop hs).1.of_count (E' := []) (fun _ => by simp [Frame.holds]))
+  | dropCc x => exact (stepFrame_counts_dropCc c w x rest h hs).weakenAnd _
+  | dropCcAfterFin x oldFin => exact (stepFrame_counts_dropCcAfterFin c w x oldFin rest h hs).weakenAnd _
+  | afterDropValue x oldDrop => exact (stepFrame_counts_afterDropValue c w x oldDrop rest h hs).weakenAnd _
+  | dropValue x => exact (stepFrame_counts_dropValue c w x rest h hs).weakenAnd _
+  | dropMoved x => exact (stepFrame_counts_dropMoved c w x rest h hs).weakenAnd _
+  | dropFields x unw => exact (stepFrame_counts_dropFields c w x unw rest h hs).weakenAnd _
+  | dropActions m i unw => exact (stepFrame_counts_dropActions c w m i unw rest h hs).weakenAnd _
+  | actionEnd cap unw => exact (stepFrame_counts_actionEnd c w cap unw rest h hs).weakenAnd _
+  | callFin x => exact (stepFrame_counts_callFin c w x rest h hs).weakenAnd _
+  | collectLoop n oldFin oldDrop => exact (stepFrame_counts_collectLoop c w n oldFin oldDrop rest h hs).weakenAnd _
+  | collectPass => exact (stepFrame_counts_collectPass c w rest h hs).weakenAnd _
+  | finalizePass N r hasFin oldFin => exact (stepFrame_counts_finalizePass c w N r hasFin oldFin rest h hs).weakenAnd _
+  | deallocDrop N r oldDrop => exact (stepFrame_counts_deallocDrop c w N r oldDrop rest h hs).weakenAnd _
+  | newAlloc k sp =>
+    exact (stepFrame_counts_newAlloc c w k sp rest h hs (fun hex => hk (.newAlloc k sp) (by rw [hs]; exact List.mem_cons_self ..) hex)).weakenAnd _
+  | newCyclicAlloc k sp body selfw => exact (stepFrame_counts_newCyclicAlloc c w k sp body selfw rest h hs).weakenAnd _
+  | newCyclicEnd k id sp selfw =>
+    exact (stepFrame_counts_newCyclicEnd c w k id sp selfw rest h hs (fun hex => hk (.newCyclicEnd k id sp selfw) (by rw [hs]; exact List.mem_cons_self ..) hex)).weakenAnd _
+  | regInsert owner script k cap =>
+    exact stepFrame_counts_regInsert c w owner script k cap rest h hs (fun hex m i fr hfr => (ha hex).head m i fr hfr)
+  | mapAlloc owner => exact (stepFrame_counts_mapAlloc c w owner rest h hs).weakenAnd _
+  | cleanEnd m byUs unw => exact (stepFrame_counts_cleanEnd c w m byUs unw rest h hs).weakenAnd _
+  | dropMany x n => exact (stepFrame_counts_dropMany c w x n rest h hs).weakenAnd _
 
-/-- **One micro-step of the machine preserves `Counts`.** -/
-theorem step_counts (c : Cfg) (w : World) (h : Counts w)
-    (hcyc : ∀ k id sp sw rest, w.stack = .newCyclicEnd k id sp sw :: rest → (w.heap id).rc = 0) : Counts (step c w) := by
+/-- The exactness flag after a step: exactness is kept by steps of the running machine that do not end stuck; an
+unwinding step may leak (the pointers held by the popped frame are forgotten). -/
+def stepFlag (ex : Bool) (w w' : World) : Bool := ex && decide (w.mode = .running) && decide (w'.mode ≠ .stuck)
+
+/-- **One micro-step of the machine preserves `Counts`** (and its exact form, see `stepFlag`). -/
+theorem step_countsG (c : Cfg) (w : World) (h : CountsG ex w) (ha : ex = true → AuxX w)
+    (hcyc : ∀ k id sp sw rest, w.stack = .newCyclicEnd k id sp sw :: rest → (w.heap id).rc = 0) :
+    CountsG (stepFlag ex w (step c w)) (step c w) := by
   unfold step
   split
-  · exact h
-  · exact h
-  · split
-    · exact h.congr rfl rfl rfl rfl rfl rfl rfl
+  · rename_i hm; exact h.weaken.ofFalse (by simp [stepFlag, hm])
+  · rename_i hm; exact h.weaken.ofFalse (by simp [stepFlag, hm])
+  · rename_i hm
+    refine CountsG.ofFalse ?_ (by simp [stepFlag, hm])
+    split
+    · exact h.weaken.congr rfl rfl rfl rfl rfl rfl rfl
     · rename_i f rest hs
       exact unwindFrame_counts c w f rest h hs (fun k id sp sw e => hcyc k id sp sw rest (e ▸ hs))
-  · split
-    · exact h
+  · rename_i hm
+    split
+    · have : stepFlag ex w w = (ex && decide (w.mode ≠ .stuck)) := by simp [stepFlag, hm]
+      rw [this]; exact h.weakenAnd _
     · rename_i f rest hs
-      exact stepFrame_counts c w f rest h hs
+      have : stepFlag ex w (stepFrame c { w with stack := rest } f) = (ex && decide ((stepFrame c { w with stack := rest } f).mode ≠ .stuck)) := by
+        simp [stepFlag, hm]
+      rw [this]
+      exact stepFrame_counts c w f rest h hs ha
 
-theorem init_counts (c : Cfg) (nH nW nK : Nat) : Counts (World.init c nH nW nK) := by
+/-- The invariant for every history. -/
+theorem step_counts (c : Cfg) (w : World) (h : Counts w)
+    (hcyc : ∀ k id sp sw rest, w.stack = .newCyclicEnd k id sp sw :: rest → (w.heap id).rc = 0) : Counts (step c w) :=
+  (step_countsG c w h (fun hex => nomatch hex) hcyc).weaken
+
+theorem init_counts (c : Cfg) (nH nW nK : Nat) : CountsG ex (World.init c nH nW nK) := by
   have hr : ∀ x, refs (World.init c nH nW nK) x = 0 := by
     intro x
     simp [refs, World.init, fieldRefs, held, optIds]
-  refine ⟨fun x => by rw [hr]; exact Nat.zero_le _, fun x _ => hr x, ?_, ?_, ?_⟩
+  refine ⟨fun x => by rw [hr]; exact Nat.zero_le _, fun _ x => by rw [hr]; simp [World.init], fun x _ => hr x, ?_, ?_, ?_⟩
   · intro f hf; cases hf
   · intro x hx; cases hx
   · intro x _; rfl
